@@ -1,8 +1,8 @@
 package chainsim
 
 import (
-	"strings"
 	"os"
+	"strings"
 	"testing"
 
 	"verif/sim/simkit"
